@@ -38,10 +38,16 @@ def type_table():
     return tab
 
 
+import codecs
+codecs.register_error('c20_latin1', lambda e: (''.join(chr(b) for b in e.object[e.start:e.end]), e.end))
+
+
 def unmangle(s):
     """recjson.h prints every byte >= 0x7f as \\u00XX: undo that (bytes -> UTF-8 text)"""
     try:
-        return s.encode('latin-1').decode('utf-8', errors='surrogateescape')
+        # bytes that are not well-formed UTF-8 (e.g. a Latin-1 name) denote U+00XX, which is what an exporter
+        # following repo_patches/C20-json-nonutf8.diff writes; on the unpatched tree such lines are invalid anyway
+        return s.encode('latin-1').decode('utf-8', errors='c20_latin1')
     except UnicodeEncodeError:
         return s
 
@@ -85,6 +91,7 @@ def py_oracle(recs, d, tab_sizes=None):
     bad = []
     vars_, nlobj, nlcon, objs = {}, set(), {}, set()
     last_var, last_obj = {}, {}
+    nldef = set()
     new, status, groups, links = {}, {}, set(), []
     marked = []
     for r in recs:
@@ -97,7 +104,7 @@ def py_oracle(recs, d, tab_sizes=None):
             if 'final' in r:
                 i = py_nat(r.get('index'))
                 fl = tuple(py_nat(r.get(k)) for k in ('unused', 'bridged', 'final'))
-                if i is None or any(f not in (0, 1) for f in fl):
+                if i is None or any(f not in (0, 1) for f in fl) or py_nat(r.get('depth')) is None:
                     bad.append('bad-constatus')
                     continue
                 status.setdefault((ty, i), []).append(fl)
@@ -108,7 +115,7 @@ def py_oracle(recs, d, tab_sizes=None):
                     marked.append((ty, r.get('name', '')))
             elif 'data' in r:
                 i = py_nat(r.get('index'))
-                if i is None:
+                if i is None or py_nat(r.get('depth')) is None:
                     bad.append('bad-connew')
                     continue
                 new.setdefault(ty, []).append(i)
@@ -126,7 +133,7 @@ def py_oracle(recs, d, tab_sizes=None):
             else:
                 bad.append('unknown-record')
         elif 'NL_COMMON_EXPR_index' in r:
-            pass
+            nldef.add(py_nat(r['NL_COMMON_EXPR_index']))
         elif 'NL_OBJECTIVE_index' in r:
             nlobj.add(py_nat(r['NL_OBJECTIVE_index']))
         elif 'NL_CON_TYPE' in r:
@@ -157,6 +164,12 @@ def py_oracle(recs, d, tab_sizes=None):
     for i in range(d['nlObjs']):
         if i not in nlobj:
             bad.append('nl-obj-missing')
+    for i in range(d.get('nlDef', 0)):
+        if i not in nldef:
+            bad.append('nl-defvar-missing')
+    for i in nldef:
+        if i is None or i >= d.get('nlDef', 0):
+            bad.append('bad-nldefvar')
     for i in range(ncons_nl):
         kinds = nlcon.get(i, set())
         if not (('logical' in kinds) if i >= d['nlAlg'] else (kinds & {'lin', 'nonlin'})):
@@ -252,9 +265,14 @@ def run_case(exe, tab, cdir, idx, model, names, accept, options, feats):
     stub = os.path.join(d, 'm')
     model.write(stub, names=(names != 'off'))
     c.stub = stub
+    if names == 'latin1':       # the same names in a single-byte encoding: not valid UTF-8
+        for ext in ('.col', '.row'):
+            t = open(stub + ext, encoding='utf-8').read()
+            open(stub + ext, 'wb').write(t.encode('latin-1', errors='replace'))
     c.src_names = ([v['name'] for v in model.vars] + [x['name'] for x in model.cons] + [x['name'] for x in model.lcons] +
                    [x['name'] for x in model.objs]) if names != 'off' else []
-    finish_case(exe, tab, c, {'nlVars': len(model.vars), 'nlObjs': len(model.objs), 'nlAlg': len(model.cons), 'nlLog': len(model.lcons)})
+    finish_case(exe, tab, c, {'nlVars': len(model.vars), 'nlObjs': len(model.objs), 'nlAlg': len(model.cons), 'nlLog': len(model.lcons),
+                              'nlDef': len(getattr(model, 'defvars', []))})
     return c
 
 
@@ -305,7 +323,7 @@ def driver_ops(c):
     for l in c.lines:
         ops.append('L ' + hx(l))
     d = c.d
-    ops.append('N %d %d %d %d' % (d['nlVars'], d['nlObjs'], d['nlAlg'], d['nlLog']))
+    ops.append('N %d %d %d %d %d' % (d['nlVars'], d['nlObjs'], d['nlAlg'], d['nlLog'], d.get('nlDef', 0)))
     for ty, li, ui in d['vars']:
         ops.append('v %d %d %d' % (ty, li, ui))
     csv = lambda l: ','.join(str(x) for x in l) if l else '-'
@@ -336,7 +354,7 @@ def repair_line(raw, hostile_names):
 
 def replay_obj(c, extra=None):
     o = {'stub_files': {}, 'options': c.options, 'accept': c.accept, 'names': c.names,
-         'sizes': {k: c.d[k] for k in ('nlVars', 'nlObjs', 'nlAlg', 'nlLog')},
+         'sizes': {k: c.d.get(k, 0) for k in ('nlVars', 'nlObjs', 'nlAlg', 'nlLog', 'nlDef')},
          'how': 'write the files, then: RECSOLVER_ACCEPT=<accept> RECSOLVER_LOG=log recsolver m -AMPL <options> cvt:writegraph=m.graph '
                 '(recsolver = harness/recsolver built by checks/recsolver.py); or ./check C20 --replay <this file>'}
     for ext in ('.nl', '.col', '.row'):
@@ -354,7 +372,11 @@ def selected_objs(nobj, objno, multi):
 
 
 def gen_case(r, idx):
-    names = r.choice(['off', 'benign', 'benign', 'hostile', 'unicode'])
+    names = r.choice(['off', 'benign', 'benign', 'hostile', 'unicode'] * 4 + ['latin1'])
+    if r.chance(1, 6):
+        # round 3: defined variables (V segments), SOS sets through suffixes, complementarity rows
+        m, feats, acc, opts = c20gen.gen_special_model(r, names=names if names != 'off' else 'benign')
+        return m, feats, names, acc, opts, 1, 0
     if r.chance(1, 5):
         # conic family: cone rows + (convex separable) QP objective x cvt:quadobj x cvt:socp x cone types accepted or not
         m, feats = c20gen.gen_conic_model(r, names=names if names != 'off' else 'benign')
@@ -387,6 +409,9 @@ def classify_case(c, lv, verdict):
     badlines = [(k, v) for k, v in enumerate(lv) if not v.startswith('rec ')]
     if badlines:
         k, v = badlines[0]
+        if v == 'badutf8' and c.names == 'latin1':
+            return ('non-utf8-name:invalid-json-line',
+                    'line %d of the export is not valid UTF-8 (a name in a single-byte encoding is copied verbatim): %r' % (k + 1, c.lines[k][:200]))
         why = repair_line(c.lines[k], hostile)
         if why:
             return ('%s:invalid-json-line' % why,
@@ -513,6 +538,8 @@ def stage_validation(ck, exe, drv, tab, ncases, hist, sample_lines):
                 ck.add_violation(sig, what + ' (conversion failed later; partial file)', replay_obj(c))
             continue
         nval += 1
+        if verdict == 'ok' and len(hist.setdefault('_okcases', [])) < 60 and len(c.lines) < 600:
+            hist['_okcases'].append(c)
         if any(pr and py_nat(pr.get('bridged')) == 1 for pr in pyrecs):
             h = hashlib.sha256()
             for ext in ('.nl', '.col', '.row'):
@@ -757,12 +784,120 @@ def stage_parser(ck, drv, sample_lines, n_mut, hist):
     return len(texts)
 
 
+# ------------------------------------------------------------------ stage 6: the validator on corrupted exports (differential)
+def stage_mutation(ck, drv, cases, nmut, hist):
+    """corrupt real exports (drop / duplicate / swap lines, change an integer, flip a flag) and require that the Lean
+    validator and the independent python oracle agree on accept/reject; exercises the rejecting arms of checkGraph"""
+    r = nlgen.Rng(ck.seed * 104729 + 11)
+    ops, meta = [], []
+    for c in cases:
+        for _ in range(nmut):
+            L = list(c.lines)
+            k = r.below(6)
+            idx = [n for n, l in enumerate(L) if b'"CON_GROUP"' not in l] or list(range(len(L)))
+            i = idx[r.below(len(idx))]
+            if k == 0:
+                del L[i]; kind = 'drop-line'
+            elif k == 1:
+                L.insert(r.below(len(L) + 1), L[i]); kind = 'duplicate-line'
+            elif k == 2:
+                j = idx[r.below(len(idx))]; L[i], L[j] = L[j], L[i]; kind = 'swap-lines'
+            elif k == 3:
+                nums = [m for m in re.finditer(rb'(?<![\w.+-])\d+(?![\w.+-])', L[i])]
+                if not nums:
+                    continue
+                m = nums[r.below(len(nums))]
+                L[i] = L[i][:m.start()] + str(int(m.group()) + r.choice([1, 1, 2, 7, -1])).encode() + L[i][m.end():]
+                kind = 'change-integer'
+            elif k == 4:
+                flags = [m for m in re.finditer(rb'"(final|bridged|unused|is_from_nl|type|sense)": (\d)', L[i])]
+                if not flags:
+                    continue
+                m = flags[r.below(len(flags))]
+                L[i] = L[i][:m.start(2)] + (b'0' if m.group(2) != b'0' else b'1') + L[i][m.end(2):]
+                kind = 'flip-flag'
+            else:
+                cands = [n for n, l in enumerate(L) if b'"link_index"' in l or b'"OBJECTIVE_index"' in l or b'"VAR_index"' in l]
+                if not cands:
+                    continue
+                del L[cands[r.below(len(cands))]]; kind = 'drop-var-obj-link-record'
+            c2 = Case()
+            c2.lines, c2.d = L, c.d
+            o = driver_ops(c2)
+            meta.append((c, c2, kind, len(ops), len(o)))
+            ops += o
+    if not ops:
+        return 0
+    ans = run_driver(drv, ops, 'mut')
+    hm = hist.setdefault('mutation', {'cases': 0, 'rejected': 0, 'disagreements': 0, 'kinds': {}, 'lean_reasons': {}})
+    for c, c2, kind, a0, n in meta:
+        a = ans[a0:a0 + n]
+        lv, verdict = a[1:1 + len(c2.lines)], a[-1]
+        pyrecs = [py_parse_line(l) for l in c2.lines]
+        lean_ok = verdict == 'ok'
+        pyv = py_oracle([x for x in pyrecs if x is not None], c2.d) if all(x is not None for x in pyrecs) else ['line-invalid']
+        if lean_ok and any(not v.startswith('rec ') for v in lv):
+            lean_ok = False
+        hm['cases'] += 1
+        hm['kinds'][kind] = hm['kinds'].get(kind, 0) + 1
+        if not lean_ok:
+            hm['rejected'] += 1
+            for rs in verdict.split()[1:]:
+                rs = re.sub(r'@\d+$', '', rs)
+                hm['lean_reasons'][rs] = hm['lean_reasons'].get(rs, 0) + 1
+        if lean_ok != (not pyv):
+            hm['disagreements'] += 1
+            ck.add_violation('validator-disagreement', 'on a corrupted export (%s) the Lean validator says %s, the python oracle %s' % (kind, verdict, pyv),
+                             replay_obj(c, {'mutation': kind, 'lines': [l.decode('latin-1') for l in c2.lines][:400]}), found_input=False)
+    return hm['cases']
+
+
+# ------------------------------------------------------------------ stage 5: exporter configuration (file handling)
+def stage_config(ck, exe, tab, hist):
+    """the option absent, an unopenable path, an existing file (must be truncated)"""
+    cdir = os.path.join(BUILD, 'c20config')
+    shutil.rmtree(cdir, ignore_errors=True)
+    os.makedirs(cdir)
+    r = nlgen.Rng(ck.seed * 31 + 5)
+    m, feats = c20gen.gen_model(r, size='small', names='benign')
+    stub = os.path.join(cdir, 'm')
+    m.write(stub, names=True)
+    n = 0
+    # 1. no option: the model is converted, no file appears
+    res = recsolver.run(exe, stub, options=['cvt:bigM=1e5'], graph=False, timeout=120)
+    conv = any(e.get('ev') == 'end' for e in res['log'])
+    others = [f for f in os.listdir(cdir) if f not in ('m.nl', 'm.col', 'm.row', 'm.sol', 'm.reclog')]
+    if conv and others:
+        ck.add_violation('config:file-without-option', 'files %s appeared without cvt:writegraph' % others, {'files': others})
+    n += 1
+    # 2. unopenable path: the run must fail (nothing delivered), not convert silently without export
+    res2 = recsolver.run(exe, stub, options=['cvt:bigM=1e5', 'cvt:writegraph=' + os.path.join(cdir, 'no_such_dir', 'g.jsonl')], graph=False, timeout=120)
+    conv2 = any(e.get('ev') == 'end' for e in res2['log'])
+    msg = (res2['sol'] or '') + res2['err'] + res2['out']
+    hist['config_unopenable'] = 'converted' if conv2 else ('error-reported' if 'graph export file' in msg else 'failed-other')
+    if conv and conv2:
+        ck.add_violation('config:unopenable-export-ignored', 'cvt:writegraph names a file that cannot be opened but the model was converted without an export',
+                         {'options': ['cvt:writegraph=<dir that does not exist>/g.jsonl']})
+    n += 1
+    # 3. an existing file is replaced, not appended to
+    g = os.path.join(cdir, 'g.jsonl')
+    open(g, 'w').write('this is not json\n' * 3)
+    res3 = recsolver.run(exe, stub, options=['cvt:bigM=1e5', 'cvt:writegraph=' + g], graph=False, timeout=120)
+    txt = open(g, 'rb').read()
+    if any(e.get('ev') == 'end' for e in res3['log']) and b'this is not json' in txt:
+        ck.add_violation('config:export-appended-to-old-file', 'the export was appended to an existing file', {'first_line': txt[:80].decode('latin-1')})
+    n += 1
+    return n
+
+
 # ------------------------------------------------------------------ entry
 N_THEOREMS = 17
 
 
 def run(ck):
     quick = ck.tier == 'quick'
+    if os.environ.get('VERIF_COVERAGE') == '1':
+        return run_coverage(ck)
     proof_ok, failing = ck.proof_stage('MpVerif.C20.Props', 'MpVerif/C20/Props.lean', 'C20_', ['MpVerif/C20/*.lean'],
                                        expect_min=N_THEOREMS)
     ck.log('proof stage: ok=%s failing=%s' % (proof_ok, failing[:8]))
@@ -780,10 +915,13 @@ def run(ck):
     ck.log('harness: %d op sequences; %s %s' % (nh, hist.get('harness_json'), hist.get('harness_links')))
     sample_lines = []
     ncases, nval, nlines = stage_validation(ck, exe, drv, tab, 600 if quick else 15000, hist, sample_lines)
+    ncfg = stage_config(ck, exe, tab, hist)
+    nmut = stage_mutation(ck, drv, hist.pop('_okcases', [])[:30 if quick else 60], 4 if quick else 20, hist)
+    ck.log('mutation differential: %s' % {k: v for k, v in hist.get('mutation', {}).items() if k != 'kinds'})
     npar = stage_parser(ck, drv, sample_lines[:1000 if quick else 5000], 6000 if quick else 40000, hist)
     ck.log('parser cross-check: %s' % hist['parser_crosscheck'])
     ck.log('validation: %d runs, %d converted+validated, %d export lines; outcomes %s' % (ncases, nval, nlines, hist['outcome']))
-    ck.cov['evaluations'] = nlines + nh + npar
+    ck.cov['evaluations'] = nlines + nh + npar + ncfg + nmut
     ck.cov['traces_validated_against_impl'] = nval
     ck.cov['distinct_nontrivial'] = len(hist.pop('_distinct', set()))
     ck.cov['rule'] = 'one recsolver run of the real converter per generated (model, acceptance set, name mode, options); ' \
@@ -792,6 +930,13 @@ def run(ck):
                      'sha256 of (.nl, .col, .row, acceptance set, options)'
     ck.cov['exhaustive'] = False
     ck.cov['histogram'] = hist
+    try:
+        cj = json.load(open(os.path.join(VERIF, 'design_notes', 'coverage', 'C20.after.json')))
+        ck.cov['anchor_line_cov'] = cj['anchor_line_cov']
+        ck.cov['anchor_branch_cov'] = cj['anchor_branch_cov']
+        ck.cov['anchor_cov_note'] = 'measured by the last VERIF_COVERAGE=1 run (quick-tier stream, seed %s): design_notes/coverage/C20.md' % cj.get('seed')
+    except Exception:
+        pass
     ck.assumptions += [
         'NL model sizes (variables, algebraic/logical constraints) are those of the generated model; the number of selected objectives follows obj:no / obj:multi',
         'the RecModelAPI log is the independent record of what the solver API received (types, groups, names, counts); numeric values are not compared',
@@ -834,3 +979,219 @@ def replay(ck, path):
     if sig:
         ck.add_violation(sig, what, o)
     return ck.finish()
+
+
+# ------------------------------------------------------------------ coverage mode (VERIF_COVERAGE=1; not part of quick/thorough)
+ANCHOR_FILES = ['include/mp/util-json-write.h', 'include/mp/util-json-write.hpp', 'include/mp/utils-file.h', 'src/utils_file.cc',
+                'include/mp/valcvt.h', 'include/mp/flat/constr_keeper.h', 'include/mp/flat/converter_model.h',
+                'include/mp/flat/converter.h', 'include/mp/flat/problem_flattener.h', 'src/std_constr.cc']
+MECH_FUNCS = ['EnsureUnset', 'MakeScalarIfUnset', 'EnsureArray', 'EnsureDictionary', 'EnsureCanWrite', 'InsertElementSeparator',
+              'MiniJSONWriter<fmt::BasicMemoryWriter<char> >::Close', 'DoWriteString', 'DoWriteScalar', 'EscapeJSON', 'operator++', 'operator[]',
+              'ValuePresolverImpl::Add', 'ExportRemainingEntries', 'FinishExportingLinkEntries', 'AllEntriesExported', 'ExportLinkEntry',
+              'WriteNodes', 'IsLastRegisteredEntry', 'ExportConstraint', 'ExportConStatus', 'AddAllUnbridged', 'LogConstraintGroup',
+              'ExportCommonExpr', 'ExportObj', 'ExportAlgCon', 'ExportLogCon', 'ExportVars', 'ExportObjective', 'OpenGraphExporter',
+              'CloseGraphExporter', 'FileAppender', 'PushObjectivesTo', 'PushVariablesTo', 'CopyLink::AddEntry', 'Many2ManyLink::AddEntry']
+
+
+def cov_build(ck, cdir):
+    """compile recsolver + h_c20 + the mp library with --coverage -O0 into cdir (plain names, so that .gcda sit next to .gcno)"""
+    from concurrent.futures import ThreadPoolExecutor
+    os.makedirs(cdir, exist_ok=True)
+    inc = ['-I' + os.path.join(REPO, 'include'), '-I' + os.path.join(REPO, 'src'), '-I' + os.path.join(VERIF, 'harness'),
+           '-I' + recsolver.RDIR]
+    defs = ['-DNDEBUG', '-DMP_DATE=20240320', '-DMP_SYSINFO="Linux x86_64"', '-DMP_USE_ATOMIC', '-DMP_USE_HASH', '-DMP_USE_UNIQUE_PTR', '-DAMPL_MP_VERIF']
+    base = ['g++', '-std=c++17', '-w', '-O0', '--coverage'] + defs + inc
+    rec = [os.path.join(recsolver.RDIR, f) for f in ['recmain.cc', 'recmodelmgr.cc', 'recmodelapi.cc', 'recbackend.cc']]
+    lib = [os.path.join(REPO, s) for s in ck.LIBMP_SRC]
+    har = [os.path.join(VERIF, 'harness', 'h_c20.cc')]
+    stamp = hashlib.sha256()
+    for src in rec + lib + har:
+        stamp.update(open(src, 'rb').read())
+    for f in ANCHOR_FILES:
+        stamp.update(open(os.path.join(REPO, f), 'rb').read())
+    tag = stamp.hexdigest()[:12]
+    tagf = os.path.join(cdir, 'stamp')
+
+    def objname(src):
+        return os.path.join(cdir, os.path.basename(src).replace('.', '_') + '.o')
+    if not (os.path.exists(tagf) and open(tagf).read() == tag and os.path.exists(os.path.join(cdir, 'recsolver'))):
+        def one(src):
+            rc, out, err = sh(base + ['-c', src, '-o', objname(src)], timeout=3600)
+            if rc != 0:
+                raise RuntimeError('coverage compile failed for %s: %s' % (src, err[-2000:]))
+        with ThreadPoolExecutor(max_workers=8) as ex:
+            list(ex.map(one, rec + lib + har))
+        for name, srcs in (('recsolver', rec + lib), ('h_c20', har + lib)):
+            rc, out, err = sh(['g++', '--coverage'] + [objname(s) for s in srcs] + ['-o', os.path.join(cdir, name), '-ldl'], timeout=1800)
+            if rc != 0:
+                raise RuntimeError('coverage link failed: %s' % err[-2000:])
+        open(tagf, 'w').write(tag)
+    for f in glob.glob(os.path.join(cdir, '*.gcda')):
+        os.remove(f)
+    return os.path.join(cdir, 'recsolver'), os.path.join(cdir, 'h_c20'), [objname(s) for s in rec + lib + har]
+
+
+def cov_collect(cdir, objs):
+    """run gcov-12 (JSON) on every .gcda and merge per anchored file: line -> count, line -> branches, functions"""
+    lines, branches, funcs = {}, {}, {}
+    for o in objs:
+        gcda = o[:-2] + '.gcda'
+        if not os.path.exists(gcda):
+            continue
+        rc, out, err = sh(['gcov-12', '-b', '-c', '-m', '--json-format', '--stdout', gcda], cwd=cdir, timeout=1800)
+        if rc != 0:
+            continue
+        for doc in out.split('\n'):
+            if not doc.startswith('{'):
+                continue
+            j = json.loads(doc)
+            for f in j.get('files', []):
+                fn = os.path.normpath(f['file'] if os.path.isabs(f['file']) else os.path.join(cdir, f['file']))
+                rel = None
+                for a in ANCHOR_FILES:
+                    if fn.endswith('/' + a):
+                        rel = a
+                if rel is None:
+                    continue
+                L, B, Fn = lines.setdefault(rel, {}), branches.setdefault(rel, {}), funcs.setdefault(rel, {})
+                for ln in f['lines']:
+                    n = ln['line_number']
+                    L[n] = L.get(n, 0) + ln['count']
+                    br = [b for b in ln.get('branches', []) if not b.get('throw')]
+                    if br:
+                        cur = B.setdefault(n, [0] * len(br))
+                        if len(cur) == len(br):
+                            for k, b in enumerate(br):
+                                cur[k] += b['count']
+                        elif sum(b['count'] for b in br) > 0:      # another instantiation with a different shape: keep "any taken" info
+                            B[n] = [c or b['count'] for c, b in zip(cur + [0] * len(br), br + [{'count': 0}] * len(cur))][:max(len(cur), len(br))]
+                for fu in f['functions']:
+                    key = (fu['start_line'], fu['end_line'])
+                    e = Fn.setdefault(key, {'names': {}, 'count': 0})
+                    nm = fu.get('demangled_name', fu['name'])
+                    e['names'][nm] = e['names'].get(nm, 0) + fu['execution_count']
+                    e['count'] += fu['execution_count']
+    return lines, branches, funcs
+
+
+def fn_label(nm):
+    """Class::method of a demangled name (template arguments dropped)"""
+    flat, depth = '', 0
+    for ch in nm.split('(')[0] if not nm.startswith('void ') and 'operator' in nm and False else nm:
+        if ch == '<':
+            depth += 1
+        elif ch == '>':
+            depth -= 1
+        elif depth == 0:
+            flat += ch
+    flat = flat.replace('mp::', '').replace('pre::', '')
+    m = re.search(r'([\w~]+::)?(operator\W+|[\w~]+)\s*\(', flat)
+    return (m.group(0)[:-1].strip() if m else flat[:80])
+
+
+def con_type_of(nm):
+    """constraint type argument of ConstraintKeeper<Converter, Backend, Constraint>::f"""
+    m = re.search(r'.*mp::RecModelAPI, (mp::.*)>::\w+\(', nm)
+    if not m:
+        return nm[-80:]
+    t = m.group(1).replace('mp::', '')
+    ids = re.findall(r'(\w+Id)\b', t)
+    t = re.sub(r'std::(vector|array)<[^<>]*(<[^<>]*>)?[^<>]*>', 'v', t)
+    return (ids[-1] if ids else t)[:100]
+
+
+def short_fn(nm):
+    nm = re.sub(r'\[with .*', '', nm)
+    m = re.search(r'([\w:~<>\+\[\]=, \*&]*?)(\w+::)?(operator\S+|~?\w+)\s*\(', nm)
+    return nm[:140]
+
+
+def run_coverage(ck):
+    cdir = os.path.join(BUILD, 'cov')
+    ck.log('coverage build (-O0 --coverage) ...')
+    exe, hexe, objs = cov_build(ck, cdir)
+    drv = ck.driver('drv_c20')
+    tab = type_table()
+    hist = {'feature': {}, 'names': {}, 'accept': {}, 'outcome': {}, 'record': {}, 'delivered_type': {}, 'stored_type': {}, 'link_type': {}}
+    # the quick-tier input stream
+    arms = {}
+    for mode in ('json', 'links'):
+        p = subprocess.run([hexe, mode, str(ck.seed), '5000'], capture_output=True, text=True)
+        ops = [l.split(' | ')[0] for l in p.stdout.split('\n') if l]
+        ops = [('WA' + o[1:]) if mode == 'json' else ('XA' + o[1:]) for o in ops]
+        for a_ in run_driver(drv, ops, 'arms'):
+            for t in a_.split():
+                key = ('step/escChar: ' if mode == 'json' else 'addEntry/addRange: ') + t
+                arms[key] = arms.get(key, 0) + 1
+    sample_lines = []
+    ncases, nval, nlines = stage_validation(ck, exe, drv, tab, 600, hist, sample_lines)
+    ck.log('coverage stream: %d runs, %d validated; outcomes %s' % (ncases, nval, hist['outcome']))
+    stage_config(ck, exe, tab, hist)
+    lines, branches, funcs = cov_collect(cdir, objs)
+    rep = {'seed': ck.seed, 'runs': ncases, 'files': {}}
+    md = ['# C20 — coverage of the anchored code by the quick-tier input stream', '',
+          'Measured with `VERIF_COVERAGE=1 ./check C20` (g++-12 `--coverage -O0`, gcov-12 `-b -c`, recsolver + h_c20 + libmp built in `build/cov`; '
+          'header-only template code is counted through the TUs that instantiate it; lines/branches merged over all TUs and instantiations; '
+          'exception-only branches excluded).  Seed %d, %d recsolver runs + 2 x 5000 harness op sequences.' % (ck.seed, ncases), '',
+          '| file | lines | covered | line % | branches | taken | branch % |', '|---|---|---|---|---|---|---|']
+    tl = tc = tb = tt = 0
+    for f in ANCHOR_FILES:
+        L, B = lines.get(f, {}), branches.get(f, {})
+        nl, cl = len(L), sum(1 for v in L.values() if v > 0)
+        nb, bt = sum(len(v) for v in B.values()), sum(1 for v in B.values() for c in v if c > 0)
+        tl += nl; tc += cl; tb += nb; tt += bt
+        rep['files'][f] = {'lines': nl, 'lines_covered': cl, 'branches': nb, 'branches_taken': bt}
+        md.append('| %s | %d | %d | %s | %d | %d | %s |' % (f, nl, cl, ('%.1f' % (100.0 * cl / nl)) if nl else 'n/a (no code instantiated)',
+                                                         nb, bt, ('%.1f' % (100.0 * bt / nb)) if nb else 'n/a'))
+    md.append('| **all anchored files** | %d | %d | **%.1f** | %d | %d | **%.1f** |' % (tl, tc, 100.0 * tc / max(tl, 1), tb, tt, 100.0 * tt / max(tb, 1)))
+    rep['anchor_line_cov'] = round(100.0 * tc / max(tl, 1), 1)
+    rep['anchor_branch_cov'] = round(100.0 * tt / max(tb, 1), 1)
+    md += ['', '`support/modelexplore/modelexplore.py` is a python reader of the file, not part of the exporter: not measured.', '',
+           '## Mechanism functions', '', '| file:lines | function | instantiations run / all | uncovered lines | branches never taken (line: arm) |', '|---|---|---|---|---|']
+    mech = {}
+    for f in ANCHOR_FILES:
+        src = open(os.path.join(REPO, f), errors='replace').read().split('\n')
+        for (a, b), e in sorted(funcs.get(f, {}).items()):
+            nm = sorted(e['names'])[0]
+            if not any(m in nm for m in MECH_FUNCS):
+                continue
+            L, B = lines.get(f, {}), branches.get(f, {})
+            unc = [n for n in range(a, b + 1) if L.get(n) == 0]
+            nb = ['%d:%s' % (n, ','.join(str(k) for k, c in enumerate(B[n]) if c == 0)) for n in range(a, b + 1) if n in B and any(c == 0 for c in B[n])]
+            ran = sum(1 for v in e['names'].values() if v > 0)
+            label = fn_label(nm)
+            mech['%s:%d' % (f, a)] = {'function': label, 'inst_run': ran, 'inst_all': len(e['names']), 'uncovered_lines': unc, 'branches_never_taken': nb,
+                                      'not_run': sorted(con_type_of(k) for k, v in e['names'].items() if v == 0)[:100]}
+            md.append('| %s:%d-%d | `%s` | %d / %d | %s | %s |' % (f.split('/')[-1], a, b, label, ran, len(e['names']),
+                                                               ' '.join(map(str, unc)) or '–', ' '.join(nb) or '–'))
+    rep['mechanism'] = mech
+    never = {}
+    for k, v in mech.items():
+        if v['inst_run'] < v['inst_all'] and ('ExportConstraint' in v['function'] or 'ExportConStatus' in v['function'] or 'AddAllUnbridged' in v['function']):
+            never[v['function']] = v['not_run']
+    md += ['', '## Constraint types whose keeper functions never ran (template instantiations with count 0)', '']
+    for fn, lst in never.items():
+        md.append('* `%s`: %s' % (fn, ', '.join(lst) or '(none)'))
+    expected = ['step/escChar: %s/%s/%s' % (o, k, n) for o, ks in (('key', ['unset', 'dict', 'array']), ('elem', ['unset', 'array', 'dict']),
+                                                                    ('scalar', ['unset', 'array', 'dict']), ('scalar-nonfinite', ['unset']),
+                                                                    ('string', ['unset', 'array', 'dict']), ('close', ['unset', 'scalar', 'array', 'dict']))
+                for k in ks for n in (['first'] if k == 'unset' else ['later'])]
+    expected += ['step/escChar: esc:' + e for e in ('quote', 'backslash', 'lf', 'cr', 'tab', 'u00XX', 'plain')]
+    expected += ['addEntry/addRange: ' + e for e in ('first-entry/range-first', 'first-entry/range-new(exports-pending)', 'not-last-registered:push/range-new(exports-pending)',
+                                                     'copy:extend-in-place', 'copy:push/range-extended', 'm2m:extend-dst', 'm2m:extend-src', 'm2m:push/range-extended',
+                                                     'finish:exports', 'finish:nothing-left')]
+    md += ['', '## Model arms taken by the quick-tier correspondence streams (Lean `step`/`escChar`, `addEntry`/`addRange`/`exportRemaining`)', '',
+           '| arm | times |', '|---|---|']
+    for k_ in sorted(set(list(arms) + expected)):
+        md.append('| %s | %s |' % (k_, arms.get(k_, '**0**')))
+    md += ['', 'Record shapes decoded by `classify` in the validation stream: %s' % json.dumps(hist['record']), '',
+           'Rejecting arms of `checkGraph` are exercised by the mutation differential (stage 6 of the check); reasons seen in the last quick run are in the evidence (`histogram.mutation.lean_reasons`).']
+    rep['model_arms'] = arms
+    os.makedirs(os.path.join(VERIF, 'design_notes', 'coverage'), exist_ok=True)
+    label = os.environ.get('VERIF_COVERAGE_LABEL', 'last')
+    open(os.path.join(VERIF, 'design_notes', 'coverage', 'C20.%s.auto.md' % label), 'w').write('\n'.join(md) + '\n')
+    json.dump(rep, open(os.path.join(VERIF, 'design_notes', 'coverage', 'C20.%s.json' % label), 'w'), indent=1)
+    ck.log('anchor line coverage %.1f%%, branch coverage %.1f%%' % (rep['anchor_line_cov'], rep['anchor_branch_cov']))
+    ck.cov.update({'obligations': 0, 'discharged': 0, 'evaluations': nlines, 'distinct_nontrivial': len(hist.pop('_distinct', set())),
+                   'rule': 'coverage measurement run', 'traces_validated_against_impl': nval, 'checker_cmd': 'VERIF_COVERAGE=1 ./check C20'})
+    ck.level = 'exploration'
